@@ -38,9 +38,10 @@ __CPROVER_loop_invariant(__CPROVER_loop_entry(index2_iter->m_id) <= index2_iter-
 __CPROVER_decreases(index2_iter->m_end - index2_iter->m_id)
 //@end
 
-//@harness h_chaseIndices enforce=chaseIndices props=C02,C17 min_obl=100
+//@harness h_chaseIndices enforce=chaseIndices props=C02,C17 min_obl=900 reach=1
 void h_chaseIndices(void)
 {
   SpIt *a, *b;
   chaseIndices(a, b);
+  REACH("exit");
 }
